@@ -602,6 +602,12 @@ void tick_scalar() {
       throw ScalarFault();
     }
 #if !defined(SIM_SELFCHK)
+#if defined(SIM_TSAN)
+  // the TSan runtime's pthread_once interceptor never resets its control word
+  // when the routine exits by an exception (every later caller would hang): no
+  // fault inside a once-routine in this flavour; the others inject it
+  } else if (c->in_once) {
+#endif
   } else if (S.active && S.cfg.static_init_throw && ++S.static_ticks == S.cfg.static_init_throw) {
     S.stats->static_init_faults++;
     c->fired_scalar++;  // the operation in progress did meet an injected fault
@@ -869,13 +875,16 @@ static void sim_once_trampoline(void) {
   void (*fn)(void) = g_once_fn;
   sim::TaskCtl *c = sim::g_cur;
   c->in_static_init++;
+  c->in_once++;
   try {
     fn();
   } catch (...) {
     c->in_static_init--;
+    c->in_once--;
     throw;
   }
   c->in_static_init--;
+  c->in_once--;
 }
 int __wrap_pthread_once(pthread_once_t *o, void (*fn)(void)) {
   if (!sim::sim_lock_active()) return __real_pthread_once(o, fn);
